@@ -16,7 +16,7 @@ var (
 	c28AssocLitRe   = regexp.MustCompile(`-[a-zA-Z]*A[a-zA-Z]*\b[^;\n]*=\(`)
 	c28EmptyArgRe   = regexp.MustCompile(`(''|""|[A-Za-z_]=([ ;\n]|$))`)
 	c28ParamAtOpRe  = regexp.MustCompile(`\$\{[^}]*@`)
-	c28TestMatchRe  = regexp.MustCompile(`(?s)\[\[.*(==|=~|!=| = ).*\]\]`)
+	c28TestMatchRe  = regexp.MustCompile(`(?m)(^|[ ;])(\[|test) .*(=|!=)`)
 	c28BareOptionRe = regexp.MustCompile(`Params\(("[^"]*",)*"[-+]o"(\)|,"")`)
 )
 
@@ -55,6 +55,7 @@ func init() {
 			return frame == "expand.(*Config).paramExp" && strings.HasPrefix(msg, "unexpected @") && c28ParamAtOpRe.MatchString(src(t))
 		}},
 		{"test-match-operand-not-word", func(t c28Case, msg, frame string) bool {
+			// [ -z a = a ]: the classic test parser makes a unary test the left operand of = or !=
 			return frame == "interp.(*Runner).bashTest" && strings.HasPrefix(msg, "interface conversion: syntax.TestExpr is *syntax.") && strings.HasSuffix(msg, "not *syntax.Word") &&
 				c28TestMatchRe.MatchString(src(t))
 		}},
